@@ -24,7 +24,7 @@ MANIFEST_ENTRY = {
             "EXIT, RETURN, nested to any depth) returns exactly the denoted statement list for every well-formed spelling, end to end "
             "through the FUNCTION_BLOCK wrapper with the fuel the entry point supplies (never exhausted). The model is compared with "
             "parse_program three ways (meaning / parser / model) on generated bodies and on token-level mutants (accept / reject and "
-            "tree). The variable declaration blocks of a function block (VAR_INPUT / OUTPUT / IN_OUT / EXTERNAL / VAR with qualifiers, name lists, elementary or named types, constant and enumerated initial values, edge inputs; PEG order of the specification alternatives) are proved the same way (C01_declarations_faithful: declarations and statements of every well-formed spelling, through the entry point) and compared three ways and on token-level mutants. TYPE blocks (arrays over subranges, integer subranges with signed bounds and defaults, enumerations by values or of another enumeration, elementary types with a constant default, late-bound names) interleaved with functions (return type, their own declaration blocks, required statement list; C01_function_faithful), function blocks and programs are proved the same way (C01_types_faithful) and compared three ways and on mutants. NOT proved: structure and string type declarations, other initializer forms (arrays, strings, structures, subranges, located variables), typed / time / real literals, direct addresses, "
+            "tree). The variable declaration blocks of a function block (VAR_INPUT / OUTPUT / IN_OUT / EXTERNAL / VAR with qualifiers, name lists, elementary or named types, constant and enumerated initial values, edge inputs; PEG order of the specification alternatives) are proved the same way (C01_declarations_faithful: declarations and statements of every well-formed spelling, through the entry point) and compared three ways and on token-level mutants. TYPE blocks (arrays over subranges, integer subranges with signed bounds and defaults, enumerations by values or of another enumeration, elementary types with a constant default, late-bound names) interleaved with functions (return type, their own declaration blocks, required statement list; C01_function_faithful), function blocks and programs are proved the same way (C01_types_faithful) and compared three ways and on mutants. A chain of any length of one operator is read as the tree that leans to the left (C01_chain_associates_left). NOT proved: structure and string type declarations, other initializer forms (arrays, strings, structures, subranges, located variables), typed / time / real literals, direct addresses, "
             "SFC and configurations -- for those the property is decided by search: an AST-level generator knows what each unit means "
             "(names, kinds, classes, qualifiers, types, initial values, nesting, association) and the parser's library must equal it, "
             "in the canonical and in random spellings.",
